@@ -863,6 +863,14 @@ class AsyncFIXConnection:
                 # Initiator still waits for Logon() response: nothing else is acceptable
                 await self.disconnect(ConnectionState.DISCONNECTED_BROKEN_CONN)
                 return
+            elif (
+                self._connection_state == ConnectionState.LOGON_INITIAL_RECV
+                and msg.msg_type != FMsg.LOGON
+            ):
+                # Acceptor failed to process peer's Logon() (state is left only by
+                #  _process_logon): Logon exchange has not completed, drop connection
+                await self.disconnect(ConnectionState.DISCONNECTED_BROKEN_CONN)
+                return
 
             if msg.msg_type == FMsg.LOGON:
                 await self._process_logon(msg)
